@@ -199,3 +199,62 @@ static inline int runRace(const vf::Args &args)
 }
 
 } // namespace c18
+
+// ------------------------------------------------------------------------------------------------
+// `abandon` mode: peers that vanish without a close handshake. Each connection upgrades, sends the
+// first `partial` bytes of one binary frame that declares `declared` bytes (within the configured
+// maximum) and closes the TCP connection. After all of them are gone the bytes they left behind
+// must not stay allocated.
+namespace c18
+{
+static inline int runAbandon(const vf::Args &args)
+{
+  vf::shim::tlsSockExempt = true;
+  uint64_t conns = args.u("conns", 40), declared = args.u("declared", 100000), partial = args.u("partial", 60000);
+  ServerRig rig;
+  if (!rig.start(1 << 20)) { vf::out().inconclusive("abandon: could not start a WebSocketServer"); vf::out().flush(); return 2; }
+  std::string part;
+  part.push_back((char)0x82);
+  part.push_back((char)(0x80 | 127));
+  for (int k = 7; k >= 0; k--) part.push_back((char)((declared >> (k * 8)) & 0xFF));
+  part.append("\x01\x02\x03\x04", 4);
+  part.append((size_t)partial, 'p');
+  // warm-up connection (thread pool, logger, engine buffers) so the baseline is steady
+  for (int w = 0; w < 3; w++)
+  {
+    SessionId sid; std::string why;
+    int fd = rig.upgrade(sid, 15000, why);
+    if (fd < 0) { vf::out().inconclusive("abandon: warm-up upgrade failed: " + why); vf::out().flush(); return 2; }
+    ::close(fd);
+  }
+  vf::sleepMs(300);
+  int64_t base = mem::live.load();
+  uint64_t done = 0;
+  for (uint64_t i = 0; i < conns; i++)
+  {
+    SessionId sid; std::string why;
+    int fd = rig.upgrade(sid, 15000, why);
+    if (fd < 0) continue;
+    if (sendAll(fd, part.data(), part.size())) done++;
+    // make sure the server consumed the bytes before the connection goes away: a masked ping is
+    // not parsed behind the partial frame, so just give the I/O thread time
+    vf::sleepMs(30);
+    ::close(fd);
+  }
+  // let the server notice every close
+  int64_t delta = 0;
+  for (int w = 0; w < 40; w++)
+  {
+    vf::sleepMs(100);
+    delta = mem::live.load() - base;
+    if (delta < int64_t(done * partial / 4)) break;
+  }
+  vf::out().line("{\"t\":\"abandon\",\"conns\":" + std::to_string(done) + ",\"partial\":" + std::to_string(partial) + ",\"declared\":" + std::to_string(declared) +
+                 ",\"live_delta\":" + std::to_string(delta) + "}");
+  vf::out().obs("abandon:connections_dropped_mid_frame", done);
+  rig.stop();
+  vf::out().line("{\"t\":\"done\"}");
+  vf::out().flush();
+  return 0;
+}
+} // namespace c18
